@@ -499,7 +499,7 @@ func genCall(r *rand.Rand) c19Call {
 }
 
 func runC19(e *Env) {
-	e.Rule = "short histories (3..8 calls on one router, so that a failed encoding is followed by a successful one) of response helper calls: Context.Text/HTML/HTMLString/JSON/JSONBytes/JSONP/XML/Blob/Stream/NoContent/Redirect/HTTPError and pkg/render JSON/JSONIndented/JSONRenderer/JSONP/XML/XMLPretty/XMLRenderer/Text/HTML/Blob/Auto; statuses from {-1,0,100,...,599}; values: strings with HTML/unicode/control characters, nested maps, structs, byte slices and unencodable values (chan, func, NaN, map holding a channel); Stream readers with and without WriteTo, one-byte reads and a failing reader; preset or absent Content-Type; Accept lists with q-parameters, blanks, unsupported types (text/html never in front of a supported type). Oracle: recorded status == given (200 for <= 0), Content-Type == documented constant (or the preset one where the documentation says it is preserved), body decodes with an independent decoder to the given value, Auto renders the first supported type, encoding failures surface in c.Errors / the returned error and never panic. Non-trivial: every call; distinct by call description."
+	e.Rule = "short histories (3..8 calls on one router, so that a failed encoding is followed by a successful one) of response helper calls: Context.Text/HTML/HTMLString/JSON/JSONBytes/JSONP/XML/Blob/Stream/NoContent/Redirect/HTTPError and pkg/render JSON/JSONIndented/JSONRenderer/JSONP/XML/XMLPretty/XMLRenderer/Text/HTML/Blob/Auto; statuses from {-1,0,100,...,599}; values: strings with HTML/unicode/control characters, nested maps, structs, byte slices and unencodable values (chan, func, NaN, map holding a channel); Stream readers with and without WriteTo, one-byte reads and a failing reader; preset or absent Content-Type; Accept lists with q-parameters, blanks, unsupported types (text/html never in front of a supported type). Oracle: recorded status == given (200 for <= 0), Content-Type == documented constant (or the preset one where the documentation says it is preserved), body decodes with an independent decoder to the given value, Auto renders the first supported type, encoding failures surface in c.Errors / the returned error and never panic. Non-trivial: every call; distinct by call description. Stream sources also include partly consumed strings/bytes readers and a SectionReader; an announced Content-Length must equal the delivered body length."
 	e.Assumptions = []string{
 		"values compared after decoding with encoding/json / encoding/xml (numbers as float64)",
 		"XML strings restricted to characters XML can carry",
